@@ -1,6 +1,7 @@
 package props
 
 import (
+	"encoding/base64"
 	"encoding/json"
 	"fmt"
 	"math/rand"
@@ -13,15 +14,19 @@ import (
 )
 
 type c12Case struct {
-	ID     string   `json:"id"`
-	Kind   string   `json:"kind"`
-	Ops    []string `json:"ops,omitempty"`
-	Pair   string   `json:"pair,omitempty"`
-	Sched  string   `json:"sched,omitempty"`
-	Rep    int      `json:"rep,omitempty"`
-	Seed   int64    `json:"seed,omitempty"`
-	G      int      `json:"g,omitempty"`
-	Settle bool     `json:"settle,omitempty"`
+	ID       string   `json:"id"`
+	Kind     string   `json:"kind"`
+	Ops      []string `json:"ops,omitempty"`
+	Pair     string   `json:"pair,omitempty"`
+	Sched    string   `json:"sched,omitempty"`
+	Rep      int      `json:"rep,omitempty"`
+	Seed     int64    `json:"seed,omitempty"`
+	G        int      `json:"g,omitempty"`
+	Settle   bool     `json:"settle,omitempty"`
+	Endpoint string   `json:"endpoint,omitempty"`
+	B64      string   `json:"b64,omitempty"`
+	Label    string   `json:"label,omitempty"`
+	State    string   `json:"state,omitempty"`
 }
 
 type c12Result struct {
@@ -161,7 +166,7 @@ func c12Sample(rng *rand.Rand, n int) []string {
 // C12 — the shim answers every call and survives any call order.
 func C12(r *core.Run) {
 	r.Level = "exploration"
-	r.SetRule("websockets.Proxy driven in-process (race-built worker with the verif hooks, agent's GODEBUG defaults, real gorilla backend). (i) sequential histories over the 18-symbol alphabet {open: valid|malformed URL|upgrade refused; data: valid|unknown|closed|malformed JSON|wrong msg type; poll/close: valid|unknown|closed|malformed; backend-send; backend-close}: bounded-exhaustive: every history up to length 4 that a static session model enables (thorough: plus sampled histories of length 5-7), each followed by a wind-down and a liveness probe on the same handler; (ii) concurrent pairs data‖close, close‖close, poll‖close, data‖backend-close, poll‖backend-close, open‖poll(guessed id) under hook schedules that park one goroutine at a hook until the other has passed a second point (2 s safety timeout), repeated; (iii) unforced stress: 8-16 goroutines issuing data/poll/close on one session while the backend talks and then client or backend closes; (iv) one idle poll that must time out by itself; (v) bounded-exhaustive mixed-ID data batches: every composition up to length 3 (thorough 4) of entries naming {open session A, open session B, session closed by the client, session closed by the backend and reported by a poll, unknown id}, judged for the 400 rule, for routing (no message on a backend connection its entry did not name) and, when all entries are valid, delivery; (vi) a push-only backend that never reads from the websocket (no close handshake is ever answered): every script up to length 3 over {data, poll, wait until more is pushed than the shim queues} followed by close, after which the backend must see the agent tear the connection down. class = history | pair/schedule | stress shape")
+	r.SetRule("websockets.Proxy driven in-process (race-built worker with the verif hooks, agent's GODEBUG defaults, real gorilla backend). (i) sequential histories over the 18-symbol alphabet {open: valid|malformed URL|upgrade refused; data: valid|unknown|closed|malformed JSON|wrong msg type; poll/close: valid|unknown|closed|malformed; backend-send; backend-close}: bounded-exhaustive: every history up to length 4 that a static session model enables (thorough: plus sampled histories of length 5-7), each followed by a wind-down and a liveness probe on the same handler; (ii) concurrent pairs data‖close, close‖close, poll‖close, data‖backend-close, poll‖backend-close, open‖poll(guessed id) under hook schedules that park one goroutine at a hook until the other has passed a second point (2 s safety timeout), repeated; (iii) unforced stress: 8-16 goroutines issuing data/poll/close on one session while the backend talks and then client or backend closes; (iv) one idle poll that must time out by itself; (v) bounded-exhaustive mixed-ID data batches: every composition up to length 3 (thorough 4) of entries naming {open session A, open session B, session closed by the client, session closed by the backend and reported by a poll, unknown id}, judged for the 400 rule, for routing (no message on a backend connection its entry did not name) and, when all entries are valid, delivery; (vii) body alphabet, bounded-exhaustive: every endpoint {open,data,poll,close} x every odd body {null, padded null, true, false, numbers, bare strings, [], {}, [null], [[]], [{}], ids of wrong JSON type, wrong key case, trailing data, deep arrays/objects (100 and 20000 levels), 1 MiB strings, invalid UTF-8, BOM, empty, non-JSON} x {no session, one open, one open and one closed}: answered without panic, 400 when no usable session id is named, bystander session unharmed; (vi) a push-only backend that never reads from the websocket (no close handshake is ever answered): every script up to length 3 over {data, poll, wait until more is pushed than the shim queues} followed by close, after which the backend must see the agent tear the connection down. class = history | pair/schedule | stress shape")
 	r.Assume("a session counts as closed once a close answered 200 or a poll answered 400 for it; between a backend-initiated close and that poll, data may answer 200 or 400; complete delivery after a backend close is only demanded when no client data/close call on that session intervened")
 	bin := r.MustBuild(r.BuildWorker())
 	godebug := "GODEBUG=" + shimGodebug(r)
@@ -253,8 +258,17 @@ func C12(r *core.Run) {
 			noread = append(noread, c12Case{ID: fmt.Sprintf("n%d-%d", ms, i), Kind: "noread", Ops: sc, Rep: ms})
 		}
 	}
+	// body alphabet: every endpoint x every odd body x session state
+	var bodies []c12Case
+	for _, ep := range []string{"open", "data", "poll", "close"} {
+		for _, st := range []string{"none", "one-open", "open-and-closed"} {
+			for _, b := range c12Bodies() {
+				bodies = append(bodies, c12Case{ID: fmt.Sprintf("y%d", len(bodies)), Kind: "body", Endpoint: ep, State: st, Label: b[0], B64: base64.StdEncoding.EncodeToString([]byte(b[1]))})
+			}
+		}
+	}
 	all := map[string]c12Case{}
-	for _, l := range [][]c12Case{hist, forced, stress, batch, noread} {
+	for _, l := range [][]c12Case{hist, forced, stress, batch, noread, bodies} {
 		for _, c := range l {
 			all[c.ID] = c
 		}
@@ -303,7 +317,7 @@ func C12(r *core.Run) {
 	}
 	if r.OnlyCase >= 0 {
 		// replay: one case of the concatenated list hist, forced, stress
-		cat := append(append(append(append(append([]c12Case{}, hist...), forced...), stress...), batch...), noread...)
+		cat := append(append(append(append(append(append([]c12Case{}, hist...), forced...), stress...), batch...), noread...), bodies...)
 		if r.OnlyCase < len(cat) {
 			launch(cat[r.OnlyCase:r.OnlyCase+1], 1, 1)
 		}
@@ -313,6 +327,7 @@ func C12(r *core.Run) {
 		launch(forced, 7, 1) // the hook scheduler is process-wide: one forced case at a time per process
 		launch(stress, 3, 1)
 		launch(append(append([]c12Case{}, batch...), noread...), 2, 4)
+		launch(bodies, 2, 4)
 	}
 	wg.Wait()
 
@@ -402,6 +417,9 @@ func C12(r *core.Run) {
 		case "batch":
 			r.Case("data-batch:[" + strings.Join(c.Ops, ",") + "]->" + res.Statuses)
 			r.Add("mixed_id_data_batches", 1)
+		case "body":
+			r.Case(fmt.Sprintf("body:%s|%s|sessions=%s->%s", c.Endpoint, c.Label, c.State, res.Statuses))
+			r.Add("odd_body_calls", 1)
 		case "noread":
 			r.Case(fmt.Sprintf("push-only-backend:%s|every %dms", strings.Join(c.Ops, ","), c.Rep))
 			r.Add("push_only_backend_scripts", 1)
@@ -445,7 +463,7 @@ func C12(r *core.Run) {
 	r.Set("hook_hits", hits)
 	r.Set("max_case_duration_ms", maxMs)
 	r.JudgeRaces(core.ParseRaceLogs(filepath.Join(r.WorkDir, "race-")))
-	minCases := exhaustive + settled + len(forced) + len(stress) + len(batch) + len(noread) - 50
+	minCases := exhaustive + settled + len(forced) + len(stress) + len(batch) + len(noread) + len(bodies) - 50
 	if r.OnlyCase >= 0 {
 		minCases = 1
 	}
@@ -462,8 +480,36 @@ func c12Describe(c c12Case) string {
 		return fmt.Sprintf("seed %d, %d goroutines", c.Seed, c.G)
 	case "batch":
 		return "data batch [" + strings.Join(c.Ops, ",") + "] (A,B open; C closed by client; D closed by backend; U unknown)"
+	case "body":
+		return fmt.Sprintf("%s with body %q [%s], sessions: %s", c.Endpoint, c.Label, core.Trunc(c12Unb64(c.B64), 80), c.State)
 	case "noread":
 		return fmt.Sprintf("push-only backend (never reads, pushes every %d ms), script [%s]", c.Rep, strings.Join(c.Ops, " "))
 	}
 	return c.Kind
+}
+
+func c12Unb64(s string) string {
+	b, _ := base64.StdEncoding.DecodeString(s)
+	return string(b)
+}
+
+// c12Bodies is the body alphabet (label, bytes). None of them names the id of a live session.
+func c12Bodies() [][2]string {
+	big := strings.Repeat("a", 1<<20)
+	return [][2]string{
+		{"null", "null"}, {"null-padded", " null\n"}, {"null-tabs", "\tnull \r\n"}, {"true", "true"}, {"false", "false"},
+		{"number", "123"}, {"negative-exponent", "-1.5e3"}, {"huge-number", "1e999"}, {"string", `"str"`}, {"string-that-is-a-session-number", `"1"`}, {"number-that-is-a-session-number", "1"},
+		{"empty-array", "[]"}, {"empty-object", "{}"}, {"array-of-null", "[null]"}, {"array-of-array", "[[]]"}, {"array-of-empty-object", "[{}]"}, {"array-of-two-nulls", "[null,null]"},
+		{"array-of-number", "[1]"}, {"array-of-string", `["1"]`},
+		{"id-null", `{"id":null}`}, {"id-number", `{"id":123}`}, {"id-number-one", `{"id":1}`}, {"id-object", `{"id":{}}`}, {"id-array", `{"id":[]}`}, {"id-true", `{"id":true}`},
+		{"id-wrong-case-null", `{"ID":null}`}, {"id-empty-string", `{"id":""}`}, {"msg-only", `{"msg":"x"}`},
+		{"batch-id-null", `[{"id":null,"msg":"x"}]`}, {"batch-id-number", `[{"id":123,"msg":"x"}]`}, {"batch-no-id", `[{"msg":"x"}]`}, {"batch-null-then-object", `[null,{"id":null}]`},
+		{"two-values", `{"id":"7"}{"id":"8"}`}, {"null-null", "null null"}, {"trailing-comma", `{"id":"7",}`}, {"misspelt-null", "nul"}, {"upper-null", "NULL"},
+		{"bom-null", "\xef\xbb\xbfnull"}, {"empty", ""}, {"whitespace-only", " \n\t"}, {"not-json", "id=1&msg=x"},
+		{"deep-array-100", strings.Repeat("[", 100) + strings.Repeat("]", 100)}, {"deep-array-20000", strings.Repeat("[", 20000) + strings.Repeat("]", 20000)},
+		{"deep-object-100", strings.Repeat(`{"id":`, 100) + "null" + strings.Repeat("}", 100)}, {"deep-unclosed-5000", strings.Repeat("[", 5000)},
+		{"string-1MiB", `"` + big + `"`}, {"id-1MiB", `{"id":"` + big + `"}`}, {"batch-id-1MiB", `[{"id":"` + big + `","msg":"x"}]`},
+		{"invalid-utf8-string", "\"\xff\xfe\""}, {"id-invalid-utf8", "{\"id\":\"\xff\"}"}, {"invalid-utf8-bare", "\xff\xfe\x00"}, {"nul-bytes", "\x00\x00"},
+		{"id-escaped-nul", `{"id":"\u0000"}`}, {"id-lone-surrogate", `{"id":"\ud800"}`},
+	}
 }
